@@ -232,7 +232,9 @@ func (u *Unit) execAppend(s *State, f *Frame, x *ssa.Call, args []Value) []*Stat
 		u.allocCheckAppend(st, x, newLen)
 		ref := u.allocRef(st)
 		ncap := u.fresh(st, "cap", "Int")
-		st.assume(And(Ge(ncap, newLen), Le(ncap, Leaf("4611686018427387904", "Int"))))
+		st.assume(And(Ge(ncap, newLen), Le(ncap, maxElems(elem))))
+		// growing past the allocator's limit panics ("growslice: len out of range")
+		u.check(st, "make", x, "append: growslice len out of range", Le(newLen, maxElems(elem)))
 		nrow := u.fresh(st, "approw", ArraySort("Int", w.SortOf(elem)))
 		k := Leaf("k!a", "Int")
 		oldrow := Select(h, w.SRef(sl))
